@@ -356,6 +356,63 @@ def pair_rule(ctx):
                           witness=None if ok else "the source-map token of this attribute points at another attribute"))
     if n_pairs < 15:
         obs.append(ob("C16.floor/pairs", False, "stringify/tag.rs", "only %d attribute writes with a location found (floor 15)" % n_pairs))
+    # a name the printer rebuilds (text possibly renamed by add_scope, location copied) keeps the location of the item its text
+    # came from: `name` and `location` of the literal are fields of one parsed item
+    k = 0
+    for f in tc.fns:
+        if not f.body or "stringify" not in f.module:
+            continue
+        for n in sir.walk(f.body):
+            if not (n.get("k") == "struct" and set(x["name"] for x in n["fields"]) == {"name", "location"}):
+                continue
+            fl = {x["name"]: x["e"] for x in n["fields"]}
+
+            def owners(e, fieldname, depth=0):
+                out = set()
+                for x in sir.walk(e):
+                    if x.get("k") == "field" and x["name"] == fieldname:
+                        out.add(sir.expr_str(x["base"]).replace(" ", ""))
+                if not out and depth < 2:
+                    for x in sir.walk(e):
+                        if x.get("k") == "path" and len(x["segs"]) == 1:
+                            for l in sir.walk(f.body):
+                                if l.get("k") == "local" and l["pat"].get("name") == x["segs"][0] and l.get("init") is not None:
+                                    out |= owners(l["init"], fieldname, depth + 1)
+                return out
+            no, lo = owners(fl["name"], "name"), owners(fl["location"], "location")
+            if not no or not lo:
+                continue
+            k += 1
+            okp = bool(no & lo)
+            obs.append(ob("C16.map/rebuilt-name/%s#%d" % (f.qual.split("::")[-1], k), okp, ctx.where(f), "text from `%s`, location from `%s`" % (sorted(no)[0], sorted(lo)[0]),
+                          witness=None if okp else "slot:field=\"alias\": the source-map token named `alias` points at `field`"))
+    # the prefix of an attribute (`wx:`, `bind:`, `mark:` ..) is recorded with the location of the prefix: in the table that maps
+    # the prefix text to its kind every row takes the location from the same item
+    for f in tc.fns:
+        if not f.body or f.module[:2] != ["parse", "tag"]:
+            continue
+        for m_ in sir.walk(f.body):
+            if m_.get("k") != "match":
+                continue
+            rows = []
+            for a in m_["arms"]:
+                b = a["body"]
+                if b.get("k") == "call" and b["f"].get("k") == "path" and len(b["f"]["segs"]) == 2 and b["f"]["segs"][0] == "AttrPrefixKind" and len(b["args"]) == 1:
+                    arg = b["args"][0]
+                    if arg.get("k") == "mcall" and arg["m"] == "location" and arg["recv"].get("k") == "path":
+                        rows.append((b["f"]["segs"][1], sir.expr_str(arg["recv"]), sir.pat_str(a["pat"])))
+            if len(rows) < 5:
+                continue
+            cnt = {}
+            for _v, r, _p in rows:
+                cnt[r] = cnt.get(r, 0) + 1
+            major = max(cnt, key=lambda x: cnt[x])
+            dev = [(v, r, p_) for v, r, p_ in rows if r != major]
+            kk = len([o_ for o_ in obs if o_["key"].startswith("C16.loc/prefix-table")])
+            obs.append(ob("C16.loc/prefix-table#%d" % (kk + 1), not dev, ctx.where(f), "%d rows take the location of `%s`" % (len(rows), major) if not dev else "the row %s takes the location of `%s`, the other %d rows of `%s`" % (dev[0][2], dev[0][1], cnt[major], major),
+                          witness=None if not dev else "mark:x=\"..\": the prefix location (and its source-map token) points at `x`"))
+    if k < 1:
+        obs.append(ob("C16.map/rebuilt-name", None, "stringify/tag.rs", "no rebuilt name found in a form this rule reads: not decided"))
     return obs
 
 
@@ -409,6 +466,23 @@ def after_skip_rule(ctx):
                           witness=None if before else "`{{ obj.\n  field }}`: the member name's location starts at the line break"))
     if n_sites < 4:
         obs.append(ob("C16.floor/start-positions", False, "parse/expr.rs", "only %d start positions found (floor 4)" % n_sites))
+    # the cursor's own token consumers: a method that tests the coming text with a look-ahead (which skips blanks in blank-skipping
+    # mode) and returns the range of what it consumed takes the start of that range after the look-ahead
+    for f in tc.fns:
+        if not f.body or f.base != "ParseState" or "Range<Position>" not in (f.ret or "").replace(" ", ""):
+            continue
+        order = list(sir.walk(f.body))
+        peeks = [i for i, y in enumerate(order) if y.get("k") == "mcall" and sir.expr_str(y["recv"]) == "self" and y["m"] in ("peek", "peek_n", "peek_str", "peek_chars")]
+        if not peeks:
+            continue
+        for i, x in enumerate(order):
+            if x.get("k") == "local" and x.get("init") is not None and sir.expr_str(x["init"]).replace(" ", "") == "self.position()" and x["pat"].get("k") == "p_ident":
+                v = x["pat"]["name"]
+                if not any(y.get("k") == "range" and y.get("from") is not None and sir.expr_str(y["from"]) == v for y in order):
+                    continue
+                okp = peeks[0] < i
+                obs.append(ob("C16.loc/after-skip/%s/%s" % (f.qual, v), okp, ctx.where(f), "the start of the consumed range is taken %s the look-ahead that skips the blanks" % ("after" if okp else "before"),
+                              witness=None if okp else "{{ typeof a }}: the operator's location starts at the blank in front of it"))
     return obs
 
 
@@ -514,14 +588,14 @@ def wave7_rules(ctx):
         if not f.body or "stringify" not in f.module:
             continue
         for n in sir.walk(f.body):
-            if n.get("k") == "mcall" and n["m"] == "write_token" and len(n["args"]) == 3 and n["args"][0].get("k") == "lit" and n["args"][0].get("v") in ("<", ">"):
+            if n.get("k") == "mcall" and n["m"] == "write_token" and len(n["args"]) == 3 and n["args"][0].get("k") == "lit" and n["args"][0].get("v") in ("<", ">", "(", ")", "[", "]", "{", "}", "{{", "}}"):
                 loc = sir.strip_ref(n["args"][2])
                 if loc.get("k") == "field" and loc["name"] in ("0", "1"):
                     n_ += 1
-                    want = "0" if n["args"][0]["v"] == "<" else "1"
+                    want = "0" if n["args"][0]["v"] in ("<", "(", "[", "{", "{{") else "1"
                     if loc["name"] != want:
                         bad.append("%s: `%s` is mapped to `%s`" % (f.qual.split("::")[-1], n["args"][0]["v"], sir.expr_str(loc)[-40:]))
-    obs.append(ob("C16.map/bracket-halves", not bad and n_ >= 10, "stringify/tag.rs", "%d `<` / `>` tokens are mapped to the first / second location of their pair" % n_ if not bad else "; ".join(bad[:3]),
+    obs.append(ob("C16.map/bracket-halves", not bad and n_ >= 10, "stringify/tag.rs", "%d opening / closing bracket tokens are mapped to the first / second location of their pair" % n_ if not bad else "; ".join(bad[:3]),
                   witness=None if not bad else "the `>` closing `</block>` of a wx:else branch is mapped to the source `<`"))
     # (4) comments lying between a wx:if element and its wx:elif / wx:else sibling stay in front of that branch's children
     ep = [f for f in tc.fns if f.base == "Element" and f.name == "parse" and f.body]
